@@ -71,12 +71,16 @@ CLAIMED = {
          "Eight kinds of outstanding task (none, user READ, DIRECT_OPERATE, SELECT step, OPERATE step, automatic DISABLE_UNSOLICITED, start-up integrity poll, file-information request) x every history to depth 3 (4) over 22 responses: ideal, with CON, first / middle / last fragment in and out of order, non-final without CON, sequence -1 / +1 / +8, foreign source, unsolicited null / data / duplicate / foreign / without CON / with a truncated object, truncated object, unknown object, IIN2 rejection, solicited with UNS bit, silence. Predicted and compared after every event: begin/end_fragment brackets (delivery exactly once, of the fragment on the wire), CONFIRM fragments written (exactly the accepted CON fragments, same sequence and UNS bit), task completion (ends / fails / must not succeed / must be ignored).",
          "Trusted: engine codecs, DESIGN 2.3. A malformed or mis-flagged fragment may be ignored or may fail the task. Whether an accepted command/file response means success is C16's subject.",
          "DESIGN.md §5 C15", True),
+ "C16": ("model_checking",
+         "exhaustive enumeration of every single mutation of the command echo for every command set and step, and of every request kind x failure kind x protocol step, on the real master task with the user futures as actors",
+         "(1) 15 command sets (5 control types x 8/16-bit indices x one object / two objects / two headers) x {DIRECT_OPERATE, SELECT step, OPERATE step} x faithful echo + every single mutation (every byte +-1, every status code in every object, header dropped / duplicated / appended, object dropped / added / reordered, empty): success iff faithful; OPERATE written only after a faithful SELECT echo, with the next sequence number and identical objects. (2) 18 request kinds x {none, reply lost, connection lost, channel disabled, association removed} x step 0..3 + full request queue: exactly one outcome per user future / FileReader, error iff a failure was injected, within (steps+2) response timeouts.",
+         "Trusted: engine codecs; the minimal ideal outstation. Master shut-down by dropping all handles is not driven. A failure at the CLOSE step of a completed file/directory read may still report success.",
+         "DESIGN.md §5 C16", True),
 }
 
 NOT_YET = {
  "C01": "designed in DESIGN §5 C01 (hostile-input sweeps + session states); check not built yet",
  "C02": "designed in DESIGN §5 C02 (paired master/outstation simulation); check not built yet",
- "C16": "designed in DESIGN §5 C16; check not built yet",
  "C17": "designed in DESIGN §5 C17; check not built yet",
  "C18": "designed in DESIGN §5 C18; check not built yet",
  "C19": "designed in DESIGN §5 C19; check not built yet",
